@@ -40,9 +40,9 @@ SIDK = ['absent', 'live', 'upgraded', 'mid', 'closed', 'unknown', 'rejected',
 HDRS = ['none', 'both', 'upgrade-only', 'wrong']
 JP = [None, '0', '12', 'abc', '1x']
 CONF = [None, 'polling', 'websocket']
-SRV = ['T', 'A', 'H']      # H: the asyncio server behind the real aiohttp adapter
+SRV = ['T', 'A', 'H', 'N']  # H / N: the asyncio server behind the real aiohttp / tornado adapter
 DIMS = [len(METHODS), len(EIO), len(TRANSPORT), len(SIDK), len(HDRS), len(JP),
-        len(CONF), 3]
+        len(CONF), len(SRV)]
 DEFAULT = (0, 2, 1, 1, 0, 0, 0, 0)
 
 
@@ -210,6 +210,17 @@ def run_cell(rec, cell):
                 'server=%s%s' % (method, eio, transport, sidk, hdrs, jp, conf,
                                  srv, '' if ws_avail else
                                  ' (no WebSocket driver)'))
+        if getattr(t, 'late_refusal', False) and want is True:
+            # tornado answered the handshake 101 before the package saw the
+            # request; the package's 400 could not be sent (the connection is
+            # closed instead). Everything else about the refusal is judged
+            # below with the status the package meant to give
+            rec.count('late_refusals_on_tornado')
+            rec.viol('tornado-websocket-refusal-status', 'WebSocket request '
+                     'that must be answered 400 was answered %r on the wire; '
+                     'the package then meant %r and the connection was '
+                     'closed=%r: %s' % (t.wire_status, t.status,
+                                        ws.server_closed, desc), case)
         if want is True:
             rec.count('must_refuse')
             rec.key('refuse/' + ','.join(map(str, cell)))
@@ -237,7 +248,11 @@ def run_cell(rec, cell):
                                                                 desc), case)
         elif want is False:
             rec.count('admitted_sanity')
-            if refused:
+            if refused and not (srv == 'N' and hdrs == 'upgrade-only'):
+                # (the tornado adapter hands every request that carries
+                # "Upgrade: websocket" to tornado's handshake code, which
+                # insists on "Connection: upgrade": a refusal of more than
+                # the property requires, not judged here)
                 rec.viol('refused-valid', 'well-addressed request refused '
                          'with %r: %s' % (t.status, desc), case)
         if refused:
@@ -305,7 +320,7 @@ def run_raw(rec, case):
         want = raw_must_refuse(method, pairs)
         before = norm_snapshot(sim)
         kw = {'env_override': {'QUERY_STRING': qs}} if srv == 'T' else \
-            {'raw_query': qs} if srv == 'H' else \
+            {'raw_query': qs} if srv in scen.HTTPB else \
             {'scope_override': {'query_string': qs.encode()}}
         t = sim.request(method, {}, {}, body=b'4x' if method == 'POST'
                         else None, **kw)
